@@ -38,7 +38,10 @@ AcceptSimplification(p, t2, out, isDP) ==
    ELSE IF \E k \in 1..(Len(out) - 1) : out[k] >= out[k + 1] THEN "not_a_subsequence_in_original_order"
    ELSE IF out = <<>> \/ out[1] # 1 THEN "first_observation_missing"
    ELSE IF out[Len(out)] # Len(p) THEN "last_observation_missing"
-   ELSE IF isDP /\ Len(out) >= 2 /\ \E i \in DOMAIN p : FrLt(t2, D2PointPoly(p[i], Sub(p, out))) THEN "observation_farther_than_tolerance_from_simplified_line"
+   \* (farther than the tolerance from EVERY leg = farther than the tolerance from the nearest one; written leg by leg so that a
+   \*  long track only compares each squared distance with the squared tolerance - no products of two large fractions)
+   ELSE IF isDP /\ Len(out) >= 2 /\ \E i \in DOMAIN p : \A k \in 1..(Len(out) - 1) : FrLt(t2, D2PointSeg(p[i], p[out[k]], p[out[k + 1]]))
+        THEN "observation_farther_than_tolerance_from_simplified_line"
    ELSE "ok"
 
 (* ---- Douglas-Peucker ------------------------------------------------------------ *)
